@@ -32,6 +32,7 @@ type caseJS struct {
 	Kind string `json:"kind"`
 	Name string `json:"name"`
 	Seed uint64 `json:"seed"`
+	Base int    `json:"base"` // id of the first case the generator invocation emitted
 	Note string `json:"note,omitempty"`
 }
 
@@ -67,7 +68,7 @@ type gen struct {
 }
 
 func (c *ctx) runOne(g *gen, name string, seed uint64) {
-	c.cur = caseJS{Kind: g.kind, Name: name, Seed: seed}
+	c.cur = caseJS{Kind: g.kind, Name: name, Seed: seed, Base: c.id}
 	c.rep.Evaluations++
 	c.rep.Count("kind:" + g.kind)
 	defer func() {
@@ -99,7 +100,7 @@ func main() {
 		if g == nil {
 			panic("unknown case kind " + cj.Kind)
 		}
-		c.id = cj.ID
+		c.id = cj.Base
 		c.runOne(g, cj.Name, cj.Seed)
 		cw.Close()
 		rep.Write(f.Out)
